@@ -275,6 +275,8 @@ def op_commit(ctx, W, case, rng, kind, batch, expect, hist):
         expect[rid] = tree
         oracle(ctx, W, case, st1, fb, expect)
     else:
+        if all(p in st0["revs"] or p in fb["revs"] for p in parents):
+            ctx.violation(case, "a commit on the stacked branch whose parents are all available failed: %s" % outcome)
         # a refused commit leaves the repository as it was
         if st1["revs"] != st0["revs"] or st1["invs"] != st0["invs"] or st1["texts"] != st0["texts"]:
             ctx.violation(case, "a refused commit changed the stacked repository")
@@ -439,6 +441,9 @@ def run_scenario(ctx, key, stop_at=None):
         nops = rng.randint(3, 5)
         for j in range(nops):
             r = rng.random()
+            if j == 0:
+                # the first operation alternates: a commit directly on the fallback's tip / a fetch into the empty stack
+                r = 0.5 if random.Random(repr(("first", seed, idx, split))).random() < 0.5 else 0.1
             if r < 0.4:
                 rev = rng.choice(later)
                 via = "remote" if (mode == "remote" and rng.random() < 0.7) else "local"
